@@ -90,6 +90,7 @@ func main() {
 	first := fs.Int("first", 1, "first history number (replays)")
 	fs.BoolVar(&withQueries, "q", false, "also observe the state through all queries after every transaction")
 	firstHistory = first
+	fs.BoolVar(&MixedCaseMint, "mixed", false, "chain configuration with a mixed-case minting denom (uUSDC)")
 	fs.Parse(os.Args[2:])
 	tab := NewSymTab(seed, ModuleAddress, prefix)
 	var rd *os.File = os.Stdin
